@@ -678,43 +678,39 @@ def check_gromacs_box(ctx, rid):
     prog = ctx.prog
     f = prog.func("iodata.formats.gromacs._helper_read_frame")
     licls = prog.cls("iodata.utils.LineIterator")
-    start = None
-    for i, st in enumerate(f.body):
-        if isinstance(st, ast.Assign) and isinstance(st.value, ast.Call) and src_of(st.value.func) in ("np.zeros", "numpy.zeros") and "(3, 3)" in src_of(st.value):
-            start = i
-    if start is None:
-        raise AnalysisError("gromacs._helper_read_frame: the 3x3 cell allocation was not found")
-    frag = [st for st in f.body[start:] if not isinstance(st, ast.Return)]
-    cvar = f.body[start].targets[0].id
+    atom = "    1SOL     OW    1   0.126  -1.624   2.679  0.1227 -0.0580  0.0434\n"
     for label, line, want in (
         ("triclinic box (nine numbers)", "11 22 33 12 13 21 23 31 32\n", [[11, 12, 13], [21, 22, 23], [31, 32, 33]]),
         ("rectangular box (three numbers)", "11 22 33\n", [[11, 0, 0], [0, 22, 0], [0, 0, 33]]),
     ):
-        lit = Rec(licls, filename="F", fh=iter([line]), lineno=0, stack=[])
-        ev = AccessorEval(prog, licls, limit=2000)
+        # the whole frame reader on a one-atom model frame (however the box part is organised: inline, in a helper)
+        lit = Rec(licls, filename="F", fh=iter(["model, t= 0.0\n", "    1\n", atom, line]), lineno=0, stack=[])
+        ev = AccessorEval(prog, licls, limit=8000)
         ev.module = f.module
-        ev._globals = {("iodata.utils", "nanometer"): 1000.0}  # so that an entry that misses the conversion shows
-        local = {f.posparams[0]: lit}
+        ev._globals = {("iodata.utils", "nanometer"): 1000.0, ("iodata.utils", "picosecond"): 1.0}  # so that an entry that misses the conversion shows
         try:
-            ev._block(frag, local)
+            res = ev.run_free(f, [lit], {})
         except Raised as exc:
-            ctx.violate(rid, f"GRO {label}: reading the box line raises {exc.args[0]}", f, f.body[start], construct=f"gro box {label}: raises")
+            ctx.violate(rid, f"GRO {label}: reading the frame raises {exc.args[0]}", f, f.node, construct=f"gro box {label}: raises")
             continue
         except NotSymbolic as exc:
-            raise AnalysisError(f"gromacs box fragment is outside the evaluation whitelist: {exc}") from exc
-        raw = np.asarray(local[cvar], dtype=float)
+            raise AnalysisError(f"gromacs frame reader is outside the evaluation whitelist: {exc}") from exc
+        raw = np.asarray(res[-1], dtype=float)
+        if raw.shape != (3, 3):
+            ctx.violate(rid, f"GRO {label}: the cell comes back with shape {raw.shape}", f, f.node, construct=f"gro box {label}: shape")
+            continue
         unconv = [(i, j) for i in range(3) for j in range(3) if want[i][j] and abs(raw[i, j] - want[i][j]) < 1e-6]
         if unconv:
             i, j = unconv[0]
-            ctx.violate(rid, f"GRO {label}: cellvecs[{i}, {j}] holds the number of the file as it is, without the nanometer conversion the other entries get ({len(unconv)} of {sum(1 for r in want for v in r if v)} entries): the conversion is applied before these entries are stored", f, f.body[start], construct=f"gro box {label}: entries not converted")
+            ctx.violate(rid, f"GRO {label}: cellvecs[{i}, {j}] holds the number of the file as it is, without the nanometer conversion the other entries get ({len(unconv)} of {sum(1 for r in want for v in r if v)} entries): the conversion is applied before these entries are stored", f, f.node, construct=f"gro box {label}: entries not converted")
             continue
         got = (raw / 1000.0).round().astype(int).tolist()
         if got == want:
-            ctx.ok(rid, f"GRO {label}: every number lands at (vector, component) as the format orders them", f"{f.module.relpath}:{f.body[start].lineno}")
+            ctx.ok(rid, f"GRO {label}: every number lands at (vector, component) as the format orders them", f"{f.module.relpath}:{f.lineno}")
         else:
             wrong = [(i, j) for i in range(3) for j in range(3) if got[i][j] != want[i][j]]
             i, j = wrong[0]
-            ctx.violate(rid, f"GRO {label}: cellvecs[{i}, {j}] (vector {i + 1}, component {'xyz'[j]}) receives the number the format calls v{got[i][j] // 10}({'xyz'[got[i][j] % 10 - 1] if got[i][j] else '-'}); the format order is v1x v2y v3z v1y v1z v2x v2z v3x v3y and cell vectors are rows ({len(wrong)} entries misplaced)", f, f.body[start], construct=f"gro box {label}: entries misplaced")
+            ctx.violate(rid, f"GRO {label}: cellvecs[{i}, {j}] (vector {i + 1}, component {'xyz'[j]}) receives the number the format calls v{got[i][j] // 10}({'xyz'[got[i][j] % 10 - 1] if got[i][j] else '-'}); the format order is v1x v2y v3z v1y v1z v2x v2z v3x v3y and cell vectors are rows ({len(wrong)} entries misplaced)", f, f.node, construct=f"gro box {label}: entries misplaced")
 
 
 def check_key_collisions(ctx, rid):
